@@ -44,4 +44,4 @@ with open('seeded/RESULTS.partial.md' if args else 'seeded/RESULTS.md', 'w') as 
     for r in rows:
         f.write('| ' + ' | '.join(r) + ' |\n')
 # leave the generated Lean files in the state of the unchanged tree
-subprocess.run(['/venv/bin/python', 'tools/extract.py'])
+# (checks run in a private copy of /verif: nothing to restore here)
